@@ -117,7 +117,7 @@ func parseDeclaration(firstToken Token, tokens *TokensIter, nested bool) Compoun
 	for tokens.HasNext() {
 		i += 1
 		token := tokens.Next()
-		if state == sValue && IsLiteral(token, "!") {
+		if IsLiteral(token, "!") { // only the last "!" may start the !important flag
 			state = sBang
 			bangPosition = i
 		} else if ident, _ := token.(Ident); state == sBang && utils.AsciiLower(ident.Value) == "important" {
